@@ -20,7 +20,7 @@ pub fn files_digest_sel(dir: &str, meta: bool) -> String {
     if let Ok(rd) = std::fs::read_dir(dir) {
         for e in rd {
             let n = e.unwrap().file_name().into_string().unwrap();
-            let global = n == "keys-nun.keys" || n == "is-oplog.valid" || n.starts_with("oplog-nun.op");
+            let global = n.starts_with("keys-nun.keys") || n == "is-oplog.valid" || n.starts_with("oplog-nun.op");
             if (n.contains("-nun.") && !global) || (meta && global) {
                 names.push(n);
             }
@@ -31,7 +31,12 @@ pub fn files_digest_sel(dir: &str, meta: bool) -> String {
         .iter()
         .map(|n| {
             let data = std::fs::read(format!("{}/{}", dir, n)).unwrap_or_default();
-            format!("{}:{}:{:016x}", esc(n.as_bytes()), data.len(), fnv(&data))
+            if n.starts_with("oplog-nun.op") {
+                // records carry wall-clock ids: only the length is comparable
+                format!("{}:{}:*", esc(n.as_bytes()), data.len())
+            } else {
+                format!("{}:{}:{:016x}", esc(n.as_bytes()), data.len(), fnv(&data))
+            }
         })
         .collect();
     format!("files=[{}]", parts.join(","))
